@@ -86,9 +86,9 @@ type object struct {
 	pkt    sonic.PacketConn
 	mcp    *multicast.UDPPeer
 	nc     net.Conn // adp: the wrapped connection (kept alive)
-	fd     int // RawFd of the sonic object
-	peer   int // raw peer descriptor (-1 if none / closed)
-	port   int // bound port (lst, pkt)
+	fd     int      // RawFd of the sonic object
+	peer   int      // raw peer descriptor (-1 if none / closed)
+	port   int      // bound port (lst, pkt)
 	closed bool
 	tok    byte
 	path   string
@@ -592,21 +592,9 @@ func (d *drv) exec(c Ev) {
 	}
 }
 
-// reserve keeps the descriptor number of a closed adapter occupied (by
-// /dev/null): AsyncAdapter.Close closes the descriptor that the wrapped
-// net.Conn still believes it owns; when that net.Conn is closed (or finalized)
-// it must not hit a number that was handed to somebody else in the meantime.
-func (d *drv) reserve(ob *object) {
-	if ob.kind != "adp" || ob.nc == nil {
-		return
-	}
-	if nul, err := syscall.Open("/dev/null", syscall.O_RDWR, 0); err == nil {
-		if nul != ob.fd {
-			_ = unix.Dup2(nul, ob.fd)
-			syscall.Close(nul)
-		}
-	}
-}
+// reserve: AsyncAdapter.Close used to close the descriptor behind the wrapped net.Conn's back
+// (repaired: it now closes through the net.Conn), so nothing has to be kept occupied any more.
+func (d *drv) reserve(ob *object) {}
 
 func (d *drv) sinkPort() int {
 	if d.sink < 0 {
@@ -947,12 +935,17 @@ func (d *drv) scenario(h []Ev) (err error) {
 		d.runPending()
 	} else {
 		d.drain()
-		if len(d.timers) > 0 {
+		for k := 0; k < 4 && len(d.timers) > 0; k++ {
 			// settle: a callback that must not run any more (cancelled, closed, already
 			// fired) gets the time of the longest delay to show up
 			time.Sleep(time.Duration(2*d.tickUs+500) * time.Microsecond)
 			d.poll()
 			d.sample()
+			if !d.busy() {
+				break
+			}
+			// a handler that ran during the settle phase started something new
+			d.drain()
 		}
 	}
 	d.emit(Ev{Ev: "End"})
@@ -1062,6 +1055,9 @@ func Run(a tr.Args) error {
 	sum.Events = w.N
 	if err := w.Close(); err != nil {
 		return err
+	}
+	if ents, err := os.ReadDir("/proc/self/fd"); err == nil {
+		sum.Notes = map[string]any{"open_descriptors_at_end": len(ents), "notes": sum.Notes}
 	}
 	sum.Print()
 	return nil
